@@ -69,3 +69,75 @@ package omap
 //@   at loop 1 exit: ghost src = yarg1
 //@   loop 1: invariant [C04] len(out) == it1 && fresh(out) && old_arrays_unchanged(out) && forall k int :: {yret1[k]} 0 <= k && k < it1 ==> yret1[k]
 //@   loop 1: invariant [C04] members: forall i int :: {out[i]} 0 <= i && i < len(out) ==> out[i] == yarg1[i].Key
+//@
+// Iterators. An Iter is a tree and a cursor into it; iterOK says the cursor (when there is one) is a path from the
+// root of that tree with stree's ordering invariant ordPath, which is what makes "next" a statement about the whole
+// key set. Seek ranges over the function returned by stree's InorderAfter and stops at the first key.
+//@ pred iterOK(it *Iter[T, U]) := it != nil && (it.m != nil ==> treeInvRO(it.m))
+//@+     && (it.c != nil ==> it.m != nil && pathOK(it.c) && ordPath(it.c.path, it.m.compare) && (len(it.c.path) > 0 ==> it.c.path[0] == it.m.root))
+//@ spec itValid(it *Iter[T, U]) bool := it.c != nil && len(it.c.path) != 0
+//@ spec itRank(it *Iter[T, U]) int := rank(it.m.compare, it.c.path[len(it.c.path) - 1].X)
+//@
+//@ func (Map).First
+//@   requires [C04] mapInv(m)
+//@   ensures  [C04] inv: result != nil && fresh(result) && iterOK(result) && result.m == m.m
+//@   ensures  [C04] empty: m.m == nil || card(m.m.elems) == 0 ==> !itValid(result)
+//@   ensures  [C04] least: m.m != nil && card(m.m.elems) > 0 ==> itValid(result) && itRank(result) in m.m.elems && forall k int :: {k in m.m.elems} k in m.m.elems ==> k >= itRank(result)
+//@   call Min#1: cmp = m.m.compare
+//@
+//@ func (Map).Last
+//@   requires [C04] mapInv(m)
+//@   ensures  [C04] inv: result != nil && fresh(result) && iterOK(result) && result.m == m.m
+//@   ensures  [C04] empty: m.m == nil || card(m.m.elems) == 0 ==> !itValid(result)
+//@   ensures  [C04] greatest: m.m != nil && card(m.m.elems) > 0 ==> itValid(result) && itRank(result) in m.m.elems && forall k int :: {k in m.m.elems} k in m.m.elems ==> k <= itRank(result)
+//@   call Max#1: cmp = m.m.compare
+//@
+//@ func (*Iter).IsValid
+//@   requires [C04] it != nil
+//@   ensures  [C04] result == itValid(it)
+//@
+//@ func (*Iter).Next
+//@   requires [C04] iterOK(it)
+//@   ensures  [C04] same: result == it && iterOK(it) && it.m == old(it.m) && it.c == old(it.c)
+//@   ensures  [C04] succ: old(itValid(it)) && itValid(it) ==> itRank(it) in it.m.elems && itRank(it) > old(itRank(it)) && forall k int :: {k in it.m.elems} k in it.m.elems ==> k <= old(itRank(it)) || k >= itRank(it)
+//@   ensures  [C04] last: old(itValid(it)) && !itValid(it) ==> forall k int :: {k in it.m.elems} k in it.m.elems ==> k <= old(itRank(it))
+//@   ensures  [C04] stays: !old(itValid(it)) ==> !itValid(it)
+//@   modifies it.c.path, backing(it.c.path)
+//@   call Next#1: cmp = it.m.compare
+//@
+//@ func (*Iter).Prev
+//@   requires [C04] iterOK(it)
+//@   ensures  [C04] same: result == it && iterOK(it) && it.m == old(it.m) && it.c == old(it.c)
+//@   ensures  [C04] pred: old(itValid(it)) && itValid(it) ==> itRank(it) in it.m.elems && itRank(it) < old(itRank(it)) && forall k int :: {k in it.m.elems} k in it.m.elems ==> k >= old(itRank(it)) || k <= itRank(it)
+//@   ensures  [C04] first: old(itValid(it)) && !itValid(it) ==> forall k int :: {k in it.m.elems} k in it.m.elems ==> k >= old(itRank(it))
+//@   ensures  [C04] stays: !old(itValid(it)) ==> !itValid(it)
+//@   modifies it.c.path, backing(it.c.path)
+//@   call Prev#1: cmp = it.m.compare
+//@
+//@ func (*Iter).Key
+//@   requires [C04] iterOK(it)
+//@   ensures  [C04] valid: itValid(it) ==> itRank(it) in it.m.elems && result == it.m.vals[itRank(it)].Key
+//@   ensures  [C04] invalid: !itValid(it) ==> result == zero
+//@
+//@ func (*Iter).Value
+//@   requires [C04] iterOK(it)
+//@   ensures  [C04] valid: itValid(it) ==> itRank(it) in it.m.elems && result == it.m.vals[itRank(it)].Value
+//@   ensures  [C04] invalid: !itValid(it) ==> result == zero
+//@
+//@ func (*Iter).Seek
+//@   requires [C04] iterOK(it) && (it.m != nil ==> treeInv(it.m) && keyOnly(it.m))
+//@   ensures  [C04] same: result == it && iterOK(it) && it.m == old(it.m)
+//@   ensures  [C04] zeromap: it.m == nil ==> !itValid(it)
+//@   ensures  [C04] found: itValid(it) ==> forall kv stree.KV[T, U] :: {rank(it.m.compare, kv)} kv.Key == key ==> itRank(it) in it.m.elems && itRank(it) >= rank(it.m.compare, kv) && (forall k int :: {k in it.m.elems} k in it.m.elems && k >= rank(it.m.compare, kv) ==> k >= itRank(it))
+//@   ensures  [C04] none: it.m != nil && !itValid(it) ==> forall kv stree.KV[T, U] :: {rank(it.m.compare, kv)} kv.Key == key ==> (forall k int :: {k in it.m.elems} k in it.m.elems ==> k < rank(it.m.compare, kv))
+//@   modifies it.c
+//@   loop 1: invariant [C04] before: it1 == 0 ==> it.c == nil
+//@   loop 1: invariant [C04] after: it1 > 0 ==> it1 == 1 && !yret1[0] && it.c != nil && fresh(it.c) && len(it.c.path) > 0 && pathOK(it.c) && ordPath(it.c.path, it.m.compare) && it.c.path[0] == it.m.root && itRank(it) == rank(it.m.compare, yarg1[0])
+//@   loop 1: invariant [C04] frame: it.m == old(it.m) && it.m != nil && treeInv(it.m) && treeInvRO(it.m)
+//@
+//@ func (Map).Seek
+//@   requires [C04] mapInv(m)
+//@   ensures  [C04] inv: result != nil && fresh(result) && iterOK(result) && result.m == m.m
+//@   ensures  [C04] zeromap: m.m == nil ==> !itValid(result)
+//@   ensures  [C04] found: itValid(result) ==> forall kv stree.KV[T, U] :: {rank(m.m.compare, kv)} kv.Key == key ==> itRank(result) in m.m.elems && itRank(result) >= rank(m.m.compare, kv) && (forall k int :: {k in m.m.elems} k in m.m.elems && k >= rank(m.m.compare, kv) ==> k >= itRank(result))
+//@   ensures  [C04] none: m.m != nil && !itValid(result) ==> forall kv stree.KV[T, U] :: {rank(m.m.compare, kv)} kv.Key == key ==> (forall k int :: {k in m.m.elems} k in m.m.elems ==> k < rank(m.m.compare, kv))
